@@ -57,6 +57,15 @@ def showV : Option Val → String
   | none => ""
   | some v => String.ofList (v.toS.map Char.ofNat)
 
+/-- binary operators on possibly-absent values (`SValue::None`, e.g. the value of a call that never
+    RETURNs): equality with `None` on the right asks whether the left side is `None` too; everywhere
+    else `None` counts as 0 -/
+def evalOpOpt (op : Nat) (va vb : Option Val) : Val :=
+  match op, vb with
+  | 5, none => .bool va.isNone
+  | 6, none => .bool (!va.isNone)
+  | _, _ => evalOp op (toVal va) (toVal vb)
+
 mutual
 def evalE (fs : List Func) : Nat → Expr → St → Option Val × St
   | 0, _, s => (none, s)
@@ -65,7 +74,7 @@ def evalE (fs : List Func) : Nat → Expr → St → Option Val × St
   | f+1, .bin op a b, s =>
     let (va, s1) := evalE fs f a s
     let (vb, s2) := evalE fs f b s1
-    (some (evalOp op (toVal va) (toVal vb)), s2)
+    (some (evalOpOpt op va vb), s2)
   | f+1, .call fn args, s => callF fs f fn args s
 def evalArgs (fs : List Func) : Nat → List Expr → St → List (Option Val) × St
   | 0, _, s => ([], s)
